@@ -40,3 +40,28 @@ func TestVerifDbgC10(t *testing.T) {
 	}
 	fmt.Printf("moves: %+v\n", out.Moves)
 }
+
+// debugging aid: VERIF_DBG_MGR=<replay file> prints every step of the state machine with its coordination writes
+func TestVerifDbgMgr(t *testing.T) {
+	p := os.Getenv("VERIF_DBG_MGR")
+	if p == "" {
+		t.Skip()
+	}
+	b, _ := os.ReadFile(p)
+	var wrap struct {
+		Input mgrIn `json:"input"`
+	}
+	if err := json.Unmarshal(b, &wrap); err != nil {
+		t.Fatal(err)
+	}
+	var out mgrOut
+	synctest.Test(t, func(t *testing.T) { out = mgrRun(wrap.Input) })
+	for i, st := range out.Steps {
+		fmt.Printf("step %d state=%s next=%s panic=%q lock=%v master=%s -> %s\n", i, st.State, st.Next, st.Panic, st.LockHeld, st.Tree[pathMasterNode], st.TreeAfter[pathMasterNode])
+		for _, e := range st.Trans {
+			if e.Host == "" || e.Mut {
+				fmt.Printf("     %s %s %s %.60s err=%s\n", e.Host, e.Kind, e.Arg, e.Resp, e.Err)
+			}
+		}
+	}
+}
